@@ -2,6 +2,7 @@ package scen
 
 import (
 	"fmt"
+	"net/url"
 	"sort"
 	"strings"
 
@@ -113,8 +114,19 @@ func (f c03flow) accepts(t c03txn, request bool) (ok bool, und bool, reason stri
 		if f.header != "" && !strings.EqualFold(f.header, t.header) && !(f.header2 != "" && strings.EqualFold(f.header2, t.header)) {
 			return false, false, "header"
 		}
-		if f.query != "" && f.query != t.query {
-			return false, false, "query"
+		if f.query != "" {
+			// reference semantics: the key must be present in the query string (even
+			// with an empty value); a required value must equal its first value
+			qv, perr := url.ParseQuery(t.query)
+			vals, present := qv["q"]
+			if perr != nil || !present || (f.query != "*" && vals[0] != f.query) {
+				return false, false, "query"
+			}
+			if f.query == "*" && vals[0] != "" {
+				// a requirement without a value: the key is there, whether a non-empty
+				// value satisfies it is not fixed by the property - not judged
+				und = true
+			}
 		}
 	} else if len(f.status) > 0 {
 		found := false
@@ -177,7 +189,7 @@ func (f c03flow) yaml() string {
 		}
 	}
 	if f.query != "" {
-		d.Query = [][2]string{{"q", f.query}}
+		d.Query = [][2]string{{"q", f.query}} // "*" = key only, no value required
 	}
 	return d.YAML()
 }
@@ -220,7 +232,7 @@ func runC03(s *kernel.Sim) {
 			}
 		}
 		if tp.Chance(1, 5) {
-			f.query = []string{"1", "2"}[tp.Choose(2)]
+			f.query = []string{"1", "2", "*"}[tp.Choose(3)]
 		}
 		if tp.Chance(1, 4) {
 			f.status = [][]int{{200}, {500}, {200, 404}}[tp.Choose(3)]
@@ -244,7 +256,7 @@ func runC03(s *kernel.Sim) {
 	var txns []c03txn
 	for i := 0; i < nTxn; i++ {
 		t := c03txn{method: []string{"GET", "POST", "PUT"}[tp.Choose(3)], header: []string{"", "v1", "v2", "v3"}[tp.Choose(4)],
-			query: []string{"", "1", "2"}[tp.Choose(3)], status: []int{200, 500, 404}[tp.Choose(3)]}
+			query: []string{"", "q=1", "q=2", "q", "q=", "x=1&q=", "x=1"}[tp.Choose(7)], status: []int{200, 500, 404}[tp.Choose(3)]}
 		if tp.Chance(3, 4) {
 			f := flows[tp.Choose(len(flows))]
 			t.host = f.host
@@ -356,9 +368,7 @@ func runC03(s *kernel.Sim) {
 						h["x-h"] = t.header
 					}
 					m := reqMsg(id, t.method, t.host, t.path(), h)
-					if t.query != "" {
-						m.Query = "q=" + t.query
-					}
+					m.Query = t.query
 					api := streamtypes.NewRequestAPIStream(m, shared)
 					fa := &streamconfig.StreamActions{Request: &streamconfig.RequestStream{}}
 					xerr = st.ExecuteFlow(api, fa)
